@@ -74,4 +74,8 @@ Monotone == lvl = 1 =>
         PreH /\ FW!LeVec(PostH, FW!Post(op, a, Up(b, i), KK))
 \* non-vacuity is read off the coverage of these two (both must be reached): printed once per operation
 Inv == Sound /\ Monotone
+\* non-vacuity (must be VIOLATED): the precondition admits multiplications / subtractions / squarings whose every limb is beyond
+\* the nominal width, i.e. Sound says something about unreduced representations
+NonVac == ~(lvl = 1 /\ op \in {"mul", "sub", "square"} /\ PreH
+            /\ \A i \in Idx : a[i] >= 2 ^ LB /\ (Binary(op) => b[i] >= 2 ^ LB))
 =============================================================================
